@@ -14,11 +14,10 @@ Two rule variables: `(prog (dom d…) (domy e…) (root …))`; a block's condit
 `(r (x y)…)` (the pairs for which `in_(x, y.r)` holds; evaluating it with `y` unbound enumerates `domy`); classes
 numbered ≥ 1000 are constructed from `x` and `y`, their rows read `class:x.y`.
 
-Output: `model=` builder + evaluator as the code is today (`Quirks.today`), `model_fixed=` all three quirks off,
-`model_q…=` every other quirk setting (a repair of one defect must still correspond), `spec=` the ripple-down
-rules interpreter `fire` over the domain, `trig=` the findings whose decidable trigger the program satisfies.
-When a finding is repaired in /repo: switch its flag off in `current` below and drop its id from `trig`
-(its `model_q…` line keeps the old behaviour printable); nothing else changes.
+Output: `model=` builder + evaluator as the code is (`Quirks.today`: repaired surgery, conclusions de-duplicated
+once by the outermost selector, a Next evaluates its right side from the incoming bindings), `model_fixed=` the same
+from the two-variable definitions, `spec=` the ripple-down rules interpreter `fire` over the domain, `trig=` the open findings whose
+decidable trigger the program satisfies, `legacy=` what the code did before the fixes of F-C08-1/2/3.
 
 Rows are `class:element`, sorted, de-duplicated (the property's observation is a set); `a|b:element` = one of the
 classes a, b (two conclusions in one Python `set`).
@@ -135,16 +134,11 @@ def liftObs : Obs → Obs2
   | .cyclic => .cyclic
   | .mismatch => .mismatch
 
-def dedupName : Dedup → String
-  | .byBinding => "b" | .byConclusion => "c" | .off => "o"
-
-/-- the quirk setting of the code as it is today (every defect still open) -/
+/-- the quirk setting of the code as it is: F-C08-1/2/3 are fixed (5ccefb5, 6d59379, f11669e) -/
 def current : Quirks := Quirks.today
-/-- two variables: a failed left side's bindings (a `y` only it bound) reach the right side of a Next. Not a
-finding of its own: it needs a refinement below a next_rule, and today those are never linked (F-C08-2), so the
-code cannot show it; the flag exists so that a repair of F-C08-2 still corresponds (`Prog.trigLeakScope` says
-where it would matter; every such program also triggers F-C08-2). -/
-def currentLeak : Bool := true
+/-- F-C08-4 (fixed, db1eb2f): a Next evaluates its right side from the incoming bindings only (before, a
+false left result's bindings — including a `y` only the failed rule bound — were handed to it) -/
+def currentLeak : Bool := false
 
 /-- one case: `domY = none` — the payload never mentions `y` -/
 def runCase (dom : List Nat) (domY : Option (List Nat)) (a : Authored) (rows : Array Row) : String :=
@@ -152,11 +146,6 @@ def runCase (dom : List Nat) (domY : Option (List Nat)) (a : Authored) (rows : A
   let rels := rows.toList.map (·.2)
   let twoVar := rels.any Option.isSome
   let r2 := Rel2.ofList (domY.getD []) rels
-  -- for the trigger of F-C08-3: the elements of `x` for which a block's condition can hold
-  let payX : Payload := Payload.ofList (rows.toList.map fun (b, rel) =>
-    match rel with
-    | none => b
-    | some R => { b with cond := (R.filter fun xy => (domY.getD []).contains xy.2).map (·.1) })
   let p := a.toProg
   -- the one-variable definitions (the ones the theorems are about) whenever the payload allows; the two-variable
   -- ones otherwise, and as a cross-check
@@ -172,30 +161,15 @@ def runCase (dom : List Nat) (domY : Option (List Nat)) (a : Authored) (rows : A
     else
       let s1 := showRows ((spec pay p dom).map fun (c, x) => ([c], x))
       if s1 == s2 then s1 else "internal:one-vs-two-variables"
-  let others : List Quirks :=
-    [true, false].flatMap fun c => [true, false].flatMap fun r =>
-      [Dedup.byBinding, .byConclusion, .off].filterMap fun d =>
-        let q : Quirks := ⟨c, r, d⟩
-        if q = current || q = Quirks.fixed then none else some q
-  let name := fun (q : Quirks) (leak : Bool) =>
-    s!"model_q{if q.climbOnce then 1 else 0}{if q.refNoRelink then 1 else 0}{dedupName q.dedup}" ++
-      (if leak == currentLeak then "" else if leak then "l" else "n")
-  let alt := (others.map fun q => name q currentLeak ++ "=" ++ obs q currentLeak) ++
-    (if twoVar then
-      ([current, Quirks.fixed] ++ others).filterMap fun q =>
-        if q = Quirks.fixed then some (name q currentLeak ++ "=" ++ obs q currentLeak)
-        else some (name q (!currentLeak) ++ "=" ++ obs q (!currentLeak))
-     else [])
-  let trig :=
-    (if p.trigClimb then ["F-C08-1"] else []) ++
-    (if p.trigRef true then ["F-C08-2"] else []) ++
-    (if p.trigNextScope payX dom || (twoVar && p.trigWitness pay r2 false) then ["F-C08-3"] else [])
+  let trig : List String := []
   "\t".intercalate
-    ([ "model=" ++ obs current currentLeak,
-       "model_fixed=" ++ obs Quirks.fixed false,
-       "spec=" ++ specStr,
-       "trig=" ++ ",".intercalate trig,
-       "unamb=" ++ toString p.unambiguous ] ++ alt)
+    [ "model=" ++ obs current currentLeak,
+      "model_fixed=" ++ showObs2 (modelA2 current false pay r2 a dom),
+      "spec=" ++ specStr,
+      "trig=" ++ ",".intercalate trig,
+      "unamb=" ++ toString p.unambiguous,
+      -- the behaviour before the fixes of F-C08-1/2/3 (information only: not a `model…` field)
+      "legacy=" ++ showObs2 (modelA2 Quirks.legacy true pay r2 a dom) ]
 
 def run (s : Sexp) : String :=
   match s with
